@@ -25,8 +25,10 @@ def exc_name(e):
 # ------------------------------------------------------------------------------- C19
 def gen_labels_unique(args):
     F, PX, L = args["F"], args["PX"], args["L"]
+    lm = args.get("labelmap") or list(range(L + 1))
     for vals in itertools.product(range(L + 1), repeat=F * PX):
-        yield {"inp": [list(vals[f * PX:(f + 1) * PX]) for f in range(F)], "multiseg": False}
+        yield {"inp": [[lm[v] for v in vals[f * PX:(f + 1) * PX]] for f in range(F)], "multiseg": False,
+               "dtype": args.get("dtype", "uint32")}
     # multiple hypotheses: (H, T, PX) arrays; the frames of the TLA+ model are the H*T slices
     H = args.get("H", 0)
     if H:
@@ -39,7 +41,7 @@ def gen_labels_unique(args):
 
 def run_labels_unique(x):
     from funtracks.utils import ensure_unique_labels
-    a = np.array(x["inp"], dtype=np.uint32)
+    a = np.array(x["inp"], dtype=np.dtype(x.get("dtype", "uint32")))
     F, PX = a.shape
     if x["multiseg"]:
         arr = a.reshape(x["H"], x["T"], 1, PX)
@@ -85,7 +87,7 @@ def gen_cand_points(args):
     import random
     T, D = args["T"], args["D"]
     rnd = random.Random(args.get("seed", 0))
-    dets = [(t, p) for t in range(T) for p in range(1, len(POSS) + 1)]
+    dets = [(t, p) for t in range(T) for p in range(1, args.get("npos", len(POSS)) + 1)]
     for bits in range(1, 2 ** len(dets)):
         X = [d for k, d in enumerate(dets) if (bits >> k) & 1]
         if args.get("shuffle"):
@@ -126,13 +128,13 @@ def gen_cand_seg(args):
             if lm:
                 # large, non-contiguous label values (products of two labels overflow 16 bits)
                 seg = [[lm[v] for v in f] for f in seg]
-            yield {"seg": seg, "D": D, "sx": sx}
+            yield {"seg": seg, "D": D, "sx": sx, "dtype": args.get("dtype", "uint16")}
 
 
 def run_cand_seg(x):
     from fractions import Fraction
     from funtracks.candidate_graph import compute_graph_from_seg
-    seg = np.array(x["seg"], dtype=np.uint16)
+    seg = np.array(x["seg"], dtype=np.dtype(x.get("dtype", "uint16")))
     T, PX = seg.shape
     sx = x["sx"]
     g = compute_graph_from_seg(seg.reshape(T, 1, PX), x["D"], iou=True, scale=None if sx == 1 else [1, 1, sx])
@@ -300,12 +302,15 @@ def run_import(x):
     par = [none if p == 0 else (unknown if p == UNKNOWN else pool[p - 1]) for p in x["par"]]
     if kind == "int" and none is None:
         par = pd.array([p if p is not None else pd.NA for p in par], dtype="Int64")
+    # "mixed": the first position column is integer-typed, the second holds half-integers (x + 0.5)
+    off = 0.5 if x["mapkind"] == "mixed" else 0.0
     names = {"identity": {"time": "time", "id": "id", "parent_id": "parent_id", "y": "y", "x": "x", "c": "c"},
+             "mixed": {"time": "time", "id": "id", "parent_id": "parent_id", "y": "y", "x": "x", "c": "c"},
              "reindexed": {"time": "time", "id": "id", "parent_id": "parent_id", "y": "y", "x": "x", "c": "c"},
              "renamed": {"time": "t", "id": "ident", "parent_id": "par", "y": "Y", "x": "X", "c": "my_custom"}}[x["mapkind"]]
     df = pd.DataFrame({names["time"]: x["time"], names["id"]: ids, names["parent_id"]: par,
-                       names["y"]: [float(10 * r + 1) for r in range(1, R + 1)],
-                       names["x"]: [float(10 * r + 2) for r in range(1, R + 1)],
+                       names["y"]: [(10 * r + 1) if off else float(10 * r + 1) for r in range(1, R + 1)],
+                       names["x"]: [float(10 * r + 2) + off for r in range(1, R + 1)],
                        names["c"]: [100 + r for r in range(1, R + 1)]})
     if x["mapkind"] == "reindexed":
         df.index = list(reversed(range(R)))          # a DataFrame that was sorted / filtered before
@@ -340,8 +345,9 @@ def run_import(x):
     nodes = []
     for n, a in g.nodes(data=True):
         pos = a.get("pos")
+        px = float(pos[1]) - off            # (the known offset of the "mixed" variant is taken off again)
         nodes.append([int(n), int(a["time"]), int(round(float(pos[0]))) if float(pos[0]).is_integer() else -1,
-                      int(round(float(pos[1]))) if float(pos[1]).is_integer() else -1,
+                      int(round(px)) if px.is_integer() else -1,
                       int(a["custom"]) if a.get("custom") is not None else -1])
     x["err"] = "ok"
     x["tids"] = [[int(n), int(a["track_id"]) if a.get("track_id") is not None else -1] for n, a in g.nodes(data=True)]
